@@ -37,10 +37,10 @@ ChkKind == [t \in ChkT |-> IF t = "k" THEN "none" ELSE "file"]
 ChkFiles == [t \in ChkT |-> IF t = "k" THEN {} ELSE {t \o "1"}]
 
 \* pair: p declares two file outputs, one per input file (output i is a function of input i, so exchanging the inputs
-\* exchanges the outputs: same set of contents, different pairing); q reads p, r reads q
+\* exchanges the outputs: same set of contents, different pairing); q reads p and declares nothing but a bin_output, r reads q
 PairT == {"p", "q", "r"}
 PairOrder == <<"p", "q", "r">>
 PairDeps == [t \in PairT |-> CASE t = "p" -> {} [] t = "q" -> {"p"} [] t = "r" -> {"q"}]
-PairKind == [t \in PairT |-> IF t = "p" THEN "pair" ELSE "file"]
+PairKind == [t \in PairT |-> CASE t = "p" -> "pair" [] t = "q" -> "bin" [] OTHER -> "file"]     \* q's only output is a bin_output
 PairFiles == [t \in PairT |-> IF t = "p" THEN {"a1", "a2"} ELSE {t \o "1"}]
 =============================================================================
